@@ -51,12 +51,13 @@ Ip6 == << V("nom", TRUE, <<X(<<32, 1, 13, 184>>), B(11, 0), B(1, 1)>>), V("zero"
 
 \* domain names inside RDATA.  c = TRUE: a type of RFC 1035 whose names may be compressed.
 \* The shapes are realised by the driver against the fixed question name at offset 12.
-NameShapes == {"plain", "root", "upper", "ptr", "lblptr", "long255", "toolong256", "label64", "label63", "ptrself", "ptrfwd",
+NameShapes == {"plain", "root", "upper", "sibling", "ptr", "lblptr", "long255", "toolong256", "label64", "label63", "ptrself", "ptrfwd",
                "cut", "ptrchain"}
 Name(c) ==
     << V("plain", TRUE, <<N("plain")>>),        \* three short labels
        V("root", TRUE, <<N("root")>>),
        V("upper", TRUE, <<N("upper")>>),        \* mixed case
+       V("sibling", TRUE, <<N("sibling")>>),    \* written out in full although it shares the question's suffix
        V("label63", TRUE, <<N("label63")>>),
        V("long255", TRUE, <<N("long255")>>),    \* exactly 255 octets on the wire
        V("ptr", c, <<N("ptr")>>),               \* a pointer to the question name
@@ -98,9 +99,11 @@ Win(w, bytes) == <<U(1, w), L(1, 0, <<X(bytes)>>)>>
 BitMaps(noneOk) ==
     << V("a", TRUE, Win(0, <<64>>)),                                      \* A
        V("a-ns-rrsig-nsec", TRUE, Win(0, <<98, 0, 0, 0, 0, 3>>)),         \* A NS SOA RRSIG NSEC
-       V("two", TRUE, Win(0, <<64>>) \o Win(1, <<0, 64>>)),               \* A + CAA (type 257)
+       V("two", TRUE, Win(0, <<64>>) \o Win(1, <<0, 64>>)),               \* A + TYPE265 (window 1, second octet)
        V("len32", TRUE, <<U(1, 0), L(1, 0, <<B(31, 0), B(1, 1)>>)>>),
        V("w255", TRUE, Win(0, <<64>>) \o Win(255, <<128>>)),
+       V("w1bit0", TRUE, Win(0, <<64>>) \o Win(1, <<128>>)),              \* A + TYPE256 (first bit of window 1)
+       V("w2bit0", TRUE, Win(2, <<192>>)),                                \* TYPE512 + TYPE513
        V("none", noneOk, <<>>),
        V("len0", FALSE, <<U(1, 0), U(1, 0)>>),
        V("len33", FALSE, <<U(1, 0), L(1, 0, <<B(33, 1)>>)>>),
@@ -109,6 +112,19 @@ BitMaps(noneOk) ==
        V("cut", FALSE, <<U(1, 0), L(1, 2, <<B(2, 1)>>)>>),
        V("lonewindow", FALSE, <<U(1, 0)>>),
        V("trailingzero", FALSE, Win(0, <<64, 0>>)) >>
+
+\* the types a well-formed bit map variant stands for (value fidelity of the decoded type set)
+BitmapTypes(tag) ==
+    CASE tag = "a" -> {1}
+      [] tag = "a-ns-rrsig-nsec" -> {1, 2, 6, 46, 47}
+      [] tag = "two" -> {1, 265}
+      [] tag = "len32" -> {255}
+      [] tag = "w255" -> {1, 65280}
+      [] tag = "w1bit0" -> {1, 256}
+      [] tag = "w2bit0" -> {512, 513}
+      [] tag = "none" -> {}
+      [] OTHER -> {0 - 1}          \* not prescribed
+HasBitmap(code) == code \in {47, 50, 62}
 
 Txt ==
     << V("one", TRUE, <<L(1, 0, <<B(5, 97)>>)>>), V("two", TRUE, <<L(1, 0, <<B(5, 97)>>), L(1, 0, <<B(3, 98)>>)>>),
@@ -378,9 +394,10 @@ HasPtr(ps) ==
          \/ (h.p = "len" /\ HasPtr(h.body))
          \/ HasPtr(Tail(ps))
 
-\* types whose RDATA a decode/encode cycle must reproduce octet for octet (no compressible names;
-\* OPT is excluded: the order of options is not significant)
-BytePreserved(code) == code \notin {2, 5, 6, 12, 15, 41, 65305, 250}
+\* types whose RDATA a decode/encode cycle must reproduce octet for octet (no compressible names).
+\* For OPT the order of options is not significant: the driver compares the options as a multiset of
+\* (code, value) pairs
+BytePreserved(code) == code \notin {2, 5, 6, 12, 15, 65305, 250}
 
 ---------------------------------------------------------------------------
 (* The list-valued RDATA (EDNS options, SVCB parameters, TXT strings, NSEC windows) as item lists: *)
